@@ -32,6 +32,27 @@ CLAIMS = {
 
 NOT_APPLICABLE = {}
 
+CLAIMS["C02"] = dict(
+    text="Proof with ghost lengths: (1) every SizedDeferred constructed on any path of any unit (the 9 sites and the size= of every directive) announces the real "
+         "length of its final bytes unless an error was reported - issued automatically per construction; (2) Deferred/SizedDeferred/Concatenator length and "
+         "concatenation contracts on the real deferred.py; (3) the accounting invariant 'error or address == start + bytes so far', together with 'each statement is handed "
+         "the running address', over statement lists of ARBITRARY length (loop contract on the real compile_block) and repeat counts of arbitrary size, across 1-3 linked "
+         "files and includes; (4) deferred bodies read no variable that changes after their construction (late binding). Zero-size directives emit nothing; .include and "
+         "insert_file produce the file's code with an honest length. A run-time check probes every label of the 21-program corpus and of probe programs (testing).",
+    note="Trusted: pyvc incl. loop contracts and the Lazy/view abstraction (justified by the deferred.py units), z3. Modular: compile_block is proved against the statement "
+         "compilers' contracts, which are discharged in their own units. File contents and parser.parse are external.",
+)
+
+CLAIMS["C12"] = dict(
+    text="Proof over Z: set_link_address settles the base exactly once to the 16-bit value of the expression, reports address-conflict on a second setting and "
+         "recursive-definition on self-dependence; '.link' hands it the raw expression; compile_and_link_files defaults to 0o1000 iff nothing set the base and continues "
+         "addresses across files; compile_include defaults to the include address; '. = X' with the base set moves the counter to X by zero fill or reports an error "
+         "(negative skip), and before any base sets it - for statement lists of arbitrary length; Promise is single-assignment; a base dependence that cancels leaves no "
+         "variable, one that does not is not-ready / cyclic. A run-time check assembles link expressions K + sum k*(L-L) and skips 0..64 (testing).",
+    note="Trusted: pyvc, z3, callee contract get_as_int. Observation kept outside the claim: a non-leading '. = X' without a prior .link sets the base. "
+         "No reference assembler is installed.",
+)
+
 CLAIMS["C05"] = dict(
     text="Proof over Z for the evaluation side: each of the 12 infix and 4 prefix operator bodies equals the documented arithmetic (floor division and modulo for "
          "either sign, shifts as multiplication / floor division by 2^n, bitwise operators are Python's), division by zero and negative shift counts are "
